@@ -585,12 +585,26 @@ var ExpireBound int64 = 1000000000 // äº¤æ˜“è¿‡æœŸåˆ†ç•Œçº¿ï¼Œå°äºexpireBoundæ
 // IsExpire äº¤æ˜“æ˜¯å¦è¿‡æœŸ
 func (tx *Transaction) IsExpire(cfg *Chain33Config, height, blocktime int64) bool {
 	group, _ := tx.GetTxGroup()
-	// an expanded group member carries the group hash in Header, which may happen to decode
-	// as a Transactions message without any tx: that is not a packed group
-	if group == nil || len(group.GetTxs()) == 0 {
+	if !isPackedGroupOf(group, tx) {
 		return tx.isExpire(cfg, height, blocktime)
 	}
 	return group.IsExpire(cfg, height, blocktime)
+}
+
+// isPackedGroupOf tells whether group, decoded from tx.Header, really is the packed group of tx.
+// An expanded group member carries the 32-byte group hash in Header, and such a hash may happen to
+// decode as a Transactions message (an empty one, or one holding garbage): the packed group of tx
+// has exactly tx.GroupCount members and every member carries that count.
+func isPackedGroupOf(group *Transactions, tx *Transaction) bool {
+	if group == nil || len(group.GetTxs()) == 0 || len(group.GetTxs()) != int(tx.GetGroupCount()) {
+		return false
+	}
+	for _, t := range group.GetTxs() {
+		if t.GetGroupCount() != tx.GetGroupCount() {
+			return false
+		}
+	}
+	return true
 }
 
 // GetTxFee è·å–äº¤æ˜“çš„è´¹ç”¨ï¼ŒåŒºåˆ†å•ç¬”äº¤æ˜“å’Œäº¤æ˜“ç»„
